@@ -260,6 +260,9 @@ type MemStorage struct {
 	Objects map[string][]byte // "bucket/object" -> contents
 	Buckets map[string]bool
 	T       *Tap // may be swapped per command
+	// ShortWrites > 0: a writer takes at most that many bytes per Write call and reports the short count
+	// without an error (what an io.Writer must not do, and what a caller has to check for all the same)
+	ShortWrites int
 }
 
 func NewMemStorage() *MemStorage {
@@ -320,7 +323,12 @@ type memWriter struct {
 	buf  bytes.Buffer
 }
 
-func (w *memWriter) Write(p []byte) (int, error) { return w.buf.Write(p) }
+func (w *memWriter) Write(p []byte) (int, error) {
+	if n := w.s.ShortWrites; n > 0 && len(p) > n {
+		return w.buf.Write(p[:n])
+	}
+	return w.buf.Write(p)
+}
 func (w *memWriter) Close() error {
 	t := w.s.tap()
 	if err := t.call("Storage.Close " + w.obj); err != nil {
